@@ -1,19 +1,84 @@
-"""Unit `jsdoc` (C01): parse_inline_tag terminates, stays inside its slice and returns a position inside it - for token slices of EVERY length (the Kani harnesses jsdoc.parse_inline_tag_N bound it to N <= 6)."""
+"""Unit `jsdoc` (C01, C02, C04): harper-comments/src/comment_parsers/jsdoc.rs.
+* parse_inline_tag terminates, stays inside its slice and returns a position inside it - for token slices of EVERY length (the Kani
+  harnesses jsdoc.parse_inline_tag_N bound it to N <= 6);
+* mark_inline_tags terminates, never slices out of range, and rewrites token kinds only (spans and length untouched);
+* parse_line (the JSDoc one) returns in-bounds ordered tokens of its line, given the inner parser's contract: no `len() - 1` style underflow,
+  no out-of-range sub-slice when a block tag is found, spans moved behind the comment markers.
+Desugarings: R6 (slice pattern), R8 over a sub-slice (`for tok in &mut tokens[a..b]`), R16 (`tuple_windows().position(..)`), a closure annotation
+(`.map(|i| i + cursor)`); abstraction A1 for the `==` test on a TokenKind inside the search closure."""
 from vx.extract import Unit
 from . import common
+from .mask_parser import SPEC as TOKS_SPEC
+from .comments import PRELUDE
 
 NAME = 'jsdoc'
 F = 'harper-comments/src/comment_parsers/jsdoc.rs'
+C = 'harper-comments/src/comment_parsers/'
+
+VOCAB = '''
+pub open spec fn same_spans(a: Seq<Token>, b: Seq<Token>) -> bool { a.len() == b.len() && forall|j: int| 0 <= j < a.len() ==> (#[trigger] a[j]).span == b[j].span }
+pub proof fn lemma_same_spans_ok(a: Seq<Token>, b: Seq<Token>, n: int)
+    requires same_spans(a, b), toks_ok(b, n),
+    ensures toks_ok(a, n),
+{
+    assert forall|i: int| 0 <= i < a.len() implies span_in(#[trigger] a[i].span, n) by { assert(span_in(b[i].span, n)); }
+    assert forall|i: int, j: int| 0 <= i < j < a.len() implies #[trigger] a[i].span.end <= #[trigger] a[j].span.start by { assert(b[i].span.end <= b[j].span.start); }
+}
+// abstraction A1: the value of a boolean test that plays no role in the proved clauses
+#[verifier::external_body]
+pub fn any_bool() -> bool { unimplemented!() }
+'''
+
+MARK_INLINE_TAGS_CONTRACT = dict(ensures=['same_spans(final(tokens)@, old(tokens)@)'])
+MARK_INLINE_TAGS = dict(
+    props=['C01', 'C02'], **MARK_INLINE_TAGS_CONTRACT,
+    opaque_bools=['t.kind == TokenKind::Punctuation(Punctuation::OpenCurly)'],
+    closures=[dict(params='|i|', typed_params='|i: usize|', result='k: usize', requires='i + cursor <= usize::MAX', ensures='k == i + cursor')],
+    loops={1: dict(invariant=['same_spans(tokens@, old(tokens)@)'], decreases='tokens@.len() - cursor + 1'),
+           2: dict(desugar='R8', invariant=['__i <= __end <= tokens@.len()', 'same_spans(tokens@, old(tokens)@)'], decreases='__end - __i')},
+)
+
+PARSE_LINE_CONTRACT = dict(result='r', ensures=['toks_ok(r@, source@.len() as int)'])
+PARSE_LINE = dict(
+    props=['C01', 'C02', 'C04'], **PARSE_LINE_CONTRACT,
+    windows_position=True,
+    loops={1: dict(desugar='R8', invariant=['__i <= __end', '__end == new_tokens@.len()', 'same_spans(new_tokens@, nt0)'], decreases='__end - __i'),
+           2: dict(desugar='R8', invariant=['actual_line.start <= actual_line.end', 'actual_line.end <= src0.len()', 'new_tokens@.len() == nt1.len()', 'toks_ok(nt1, actual_line.end - actual_line.start)',
+                                            'forall|j: int| __i <= j < new_tokens@.len() ==> new_tokens@[j] == nt1[j]',
+                                            'forall|j: int| 0 <= j < __i ==> (#[trigger] new_tokens@[j]).span.start == nt1[j].span.start + actual_line.start && new_tokens@[j].span.end == nt1[j].span.end + actual_line.start'],
+                   decreases='new_tokens@.len() - __i')},
+    proofs=[dict(at='body_start', kind='ghost', text='let ghost src0 = source@;'),
+            dict(after='let mut new_tokens', kind='ghost', text='let ghost nt0 = new_tokens@;'),
+            dict(before='for token in new_tokens', text='lemma_same_spans_ok(new_tokens@, nt0, actual_line.end - actual_line.start);'),
+            dict(before='for token in new_tokens', kind='ghost', text='let ghost nt1 = new_tokens@;'),
+            dict(at='loop_body_start', loop=2, text='assert(span_in(nt1[__i - 1].span, actual_line.end - actual_line.start));'),
+            dict(before='new_tokens', text='''
+        assert forall|j: int| 0 <= j < new_tokens@.len() implies span_in((#[trigger] new_tokens@[j]).span, src0.len() as int) by { assert(span_in(nt1[j].span, actual_line.end - actual_line.start)); }
+        assert forall|i: int, j: int| 0 <= i < j < new_tokens@.len() implies (#[trigger] new_tokens@[i]).span.end <= (#[trigger] new_tokens@[j]).span.start by { assert(nt1[i].span.end <= nt1[j].span.start); }''')],
+)
 
 
 def build(repo):
     U = Unit(NAME, repo)
     U.header = common.HEADER
-    common.add_span(U, [], props=('C01',))
+    common.add_span(U, list(common.SPAN_FNS), props=('C01',))
     common.add_tokens(U)
+    U.raw(PRELUDE, name='trusted:prelude')
+    U.raw(TOKS_SPEC, name='spec:toks_ok')
+    U.raw(common.POSITION_SPEC, name='trusted:position')
+    U.raw(VOCAB, name='lemmas:same_spans', props=['C02'])
+    U.trait('harper-core/src/parsers/mod.rs', 'trait Parser', {'parse': dict(result='r', ensures=['toks_ok(r@, source@.len() as int)', 'self.sp_det() ==> r@ == self.sp_parse(source@)'],
+                                                                             note='the front-end contract of C02; proved for PlainEnglish in unit lexing')},
+            cfg_not='cfg(feature="concurrent")',
+            extra_members='    spec fn sp_parse(&self, source: Seq<char>) -> Seq<Token>;\n    spec fn sp_det(&self) -> bool;')
+    U.fn(C + 'mod.rs', 'without_initiators', dict(
+        result='r', external_body=True, props=['C01', 'C02', 'C04'], ensures=['r.start <= r.end', 'r.end <= source@.len()'],
+        assumed='r.start <= r.end <= |source|', note='see unit comments'))
     U.fn(F, 'parse_inline_tag', dict(
         result='r', props=['C01'], slice_matches=True,
         ensures=['r matches Some(p) ==> 1 <= p <= tokens@.len()'],
         loops={1: dict(invariant=['3 <= cursor <= tokens@.len()'], decreases='tokens@.len() - cursor')}))
+    U.fn(F, 'mark_inline_tags', MARK_INLINE_TAGS)
+    U.fn(F, 'parse_line', PARSE_LINE)
     U.raw(common.FOOTER)
     return U
